@@ -31,7 +31,10 @@ try:
         for p in props:
             t0 = time.time()
             rc, o = sh("./check %s --tier quick" % p, cwd=ROOT, env=dict(os.environ, VERIF_REPO=WT, VERIF_BUILD=BD, VERIF_EVIDENCE=BD + '/evidence'))
-            v = [l for l in o.splitlines() if l.startswith("VIOLATION")]
+            # violations caused by the framework itself being mid-edit (a proof file that does not
+            # compile, an internal error, a harness that does not build) never count as "caught"
+            v = [l for l in o.splitlines() if l.startswith("VIOLATION")
+                 and not any(("/" + x) in l for x in ("proof_", "check_internal", "correspondence_"))]
             caught.append((p, rc, len(v), round(time.time() - t0), v[:1]))
         ok = any(rc == 1 and n > 0 for (_, rc, n, _, _) in caught)
         results[s] = ("CAUGHT " if ok else "MISSED ") + json.dumps(caught)
